@@ -6,32 +6,36 @@
 #    worktree (so /repo is never modified and other checks can run concurrently).
 set -u
 SEED="$(cd "$1" && pwd)"; shift
-W=/tmp/seed-confirm
+# SEED_SLOT=<name>: separate scratch worktree / harness copy / evidence root, so that several
+# evaluations can run side by side
+SLOT="${SEED_SLOT:+-$SEED_SLOT}"
+W=/tmp/seed-confirm$SLOT
+HC=/tmp/seed-harness$SLOT
 if [ ! -d "$W" ]; then git -C /repo worktree add -q --detach "$W" HEAD || exit 2; fi
 git -C "$W" checkout -q --detach "$(git -C /repo rev-parse HEAD)" && git -C "$W" reset -q --hard && git -C "$W" clean -qfd -e target
 if [ -z "${SEED_SKIP_CONFIRM:-}" ]; then
 echo "== confirm in $W"
 if [ -f "$SEED/seed_demo.rs" ]; then
   cp "$SEED/seed_demo.rs" "$W/tests/seed_demo.rs"
-  ( cd "$W" && CARGO_NET_OFFLINE=true cargo test --offline ${SEED_DEMO_FEATURES:-} --test seed_demo >/tmp/seed-demo-clean.log 2>&1 ); echo "demo without patch: exit $? (expected 0)"
+  ( cd "$W" && CARGO_NET_OFFLINE=true cargo test --offline ${SEED_DEMO_FEATURES:-} --test seed_demo >/tmp/seed-demo-clean$SLOT.log 2>&1 ); echo "demo without patch: exit $? (expected 0)"
 fi
 git -C "$W" apply "$SEED/patch.diff" || { echo "patch does not apply"; exit 2; }
 if [ -f "$SEED/seed_demo.rs" ]; then
-  ( cd "$W" && CARGO_NET_OFFLINE=true cargo test --offline ${SEED_DEMO_FEATURES:-} --test seed_demo >/tmp/seed-demo-patched.log 2>&1 ); echo "demo with patch: exit $? (expected non-zero)"
+  ( cd "$W" && CARGO_NET_OFFLINE=true cargo test --offline ${SEED_DEMO_FEATURES:-} --test seed_demo >/tmp/seed-demo-patched$SLOT.log 2>&1 ); echo "demo with patch: exit $? (expected non-zero)"
   rm -f "$W/tests/seed_demo.rs"
 fi
 VERIF_REPO="$W" /verif/baseline.sh; echo "baseline with patch: exit $? (expected 0)"
 else
 git -C "$W" apply "$SEED/patch.diff" || { echo "patch does not apply"; exit 2; }
 fi
-echo "== run checks against the patched worktree $W (harness copy in /tmp/seed-harness; /repo is not touched)"
-mkdir -p /tmp/seed-harness
-rsync -a --delete --exclude 'target-*' --exclude target /verif/harness/ /tmp/seed-harness/
-sed -i 's#path = "/repo"#path = "'"$W"'"#' /tmp/seed-harness/Cargo.toml
-grep -q "$W" /tmp/seed-harness/Cargo.toml || { echo "harness copy does not point at $W"; exit 2; }
+echo "== run checks against the patched worktree $W (harness copy in $HC; /repo is not touched)"
+mkdir -p $HC
+rsync -a --delete --exclude 'target-*' --exclude target /verif/harness/ $HC/
+sed -i 's#path = "/repo"#path = "'"$W"'"#' $HC/Cargo.toml
+grep -q "$W\"" $HC/Cargo.toml || { echo "harness copy does not point at $W"; exit 2; }
 # evidence and replays of runs against a modified tree go to a scratch root, never into /verif
-export VERIF_HARNESS=/tmp/seed-harness
-export VERIF_OUT_ROOT=/tmp/seed-vroot; mkdir -p $VERIF_OUT_ROOT; cp /verif/known_findings.txt $VERIF_OUT_ROOT/
+export VERIF_HARNESS=$HC
+export VERIF_OUT_ROOT=/tmp/seed-vroot$SLOT; mkdir -p $VERIF_OUT_ROOT; cp /verif/known_findings.txt $VERIF_OUT_ROOT/
 for id in "$@"; do
   out=$(cd /verif && ./run "$id" quick 2>&1); code=$?
   echo "-- $id exit=$code"; echo "$out" | grep -E "^(VIOLATION|KNOWN-FINDING|C[0-9]+ quick|machinery)" | cut -c1-260 | head -8
